@@ -1,8 +1,9 @@
 """C08 — built-in functions return their specified value for all arguments; named = positional.
 Proof: coq/Props/C08.v (characterisations for all list / string lengths and all positions).
 Correspondence: every call is issued positionally and with named parameters through parse + evaluate of the working tree
-and compared with coq/C08/Model.v (list, string, aggregate, boolean, context functions) or, for the functions that are
-validated only (matches / replace / split on literal patterns, string, number, sort, stddev), with a reference written here."""
+and compared with coq/C08/Model.v (list, string, aggregate, boolean, context functions), with coq/C08/Model2.v (sort with a
+`precedes` function, stddev, split / replace / matches on literal patterns; the Python reference of these
+must agree with the Coq model), or, for string / number, with a reference written here."""
 import decimal
 import itertools
 import json
@@ -16,6 +17,8 @@ from props.c09 import V, num, st, lst, cx, rng, fun, date, VNULL, VTRUE, VFALSE
 
 HEADER = ('From Coq Require Import List NArith ZArith Bool.\nFrom DV Require Import C09.Values C09.Model C08.Model.\n'
           'Import ListNotations.\nOpen Scope Z_scope.\n')
+HEADER2 = ('From Coq Require Import List NArith ZArith Bool.\nFrom DV Require Import C09.Values C09.Model C08.Model C08.Model2 C08.StddevSqrt.\n'
+           'Import ListNotations.\nOpen Scope Z_scope.\n')
 ORIG = os.environ.get('C08_MODEL', '') == 'orig'      # development aid: compare with the model of the pinned commit
 POS = 'pos_orig' if ORIG else 'pos'
 NAM = 'nam_orig' if ORIG else 'nam'
@@ -265,6 +268,51 @@ def ref_call(name, args):
     raise KeyError
 
 
+# ------------------------------------------------------------------ the second model file (coq/C08/Model2.v)
+def literal(v):
+    return v.kind == 'str' and v.feel[1:-1].isalnum()
+
+
+def coq_ref_term(name, args):
+    """Coq term of coq/C08/Model2.v for a call of sort / split / replace / matches / stddev, None where the model does not apply"""
+    if name == 'sort' and len(args) == 2 and args[1].kind == 'function':
+        body = args[1].feel
+        arity = int(args[1].coq.split()[1].split('%')[0])      # (VFun k%N)
+        rel = 'v_lt' if body.endswith('x < y') else 'v_gt' if body.endswith('x > y') else '(fun x _ => x)' if body.endswith(') x') else None
+        if rel is None:
+            return None
+        return 'b_sort %s %d%%N %s' % (args[0].coq, arity, rel)
+    if name in ('split', 'matches') and len(args) == 2 and (args[1].kind != 'str' or literal(args[1])):
+        return '%s %s %s' % ('b_split' if name == 'split' else 'b_matches', args[0].coq, args[1].coq)
+    if name == 'replace' and len(args) == 3 and (args[1].kind != 'str' or literal(args[1])) and '$' not in args[2].feel:
+        return 'b_replace %s %s %s' % (args[0].coq, args[1].coq, args[2].coq)
+    if name == 'stddev':
+        return 'pos_stddev_dec [%s]' % '; '.join(a.coq for a in args)      # square root: Base/DecRound.v dsqrt (C02/Sqrt.v)
+    return None
+
+
+def model2_value(name, t):
+    """canonical form of the value the second model file specifies"""
+    return norm_term(t)
+
+
+def strict(x):
+    """canonical form that keeps the scale of numbers apart (1 and 1.0): used where the order of tied items matters"""
+    if isinstance(x, tuple) and x[0] == 'l':
+        return ('l', tuple(strict(y) for y in x[1]))
+    if isinstance(x, tuple) and x[0] == 'n':
+        return ('N', x[1].as_tuple())
+    return x
+
+
+def strict_impl(j):
+    if isinstance(j, list):
+        return ('l', tuple(strict_impl(x) for x in j))
+    if isinstance(j, dict) and 'p' in j and 'n' in j:
+        return ('N', Decimal(j['p']).as_tuple())
+    return norm_impl(j)
+
+
 # ------------------------------------------------------------------ case generation
 def mklist(*vs):
     v = lst(*vs)
@@ -423,6 +471,10 @@ def gen_cases(ctx):
         if items and all(i.kind == 'num' for i in items) or items and all(i.kind == 'str' for i in items):
             add('sort', lstv(*items), lt)
             add('sort', lstv(*items), gt)
+    for items in ([num('2'), num('2.0'), num('1'), num('2.00'), num('1.0')], [num('1.0'), num('1'), num('1.00')],
+                  [num('3'), num('1'), num('2.0'), num('1.0'), num('2')]):
+        add('sort', lstv(*items), lt)
+        add('sort', lstv(*items), gt)
     add('sort', lstv(), lt)
     add('sort', num('1'), lt)
     add('sort', lstv(num('1')), fun(['x'], 'x'))
@@ -482,6 +534,7 @@ def run(ctx):
     r = ctx.rng
     cases = gen_cases(ctx)
     reqs, terms, meta = [], [], []
+    terms2, idx2 = [], []
     for name, args in cases:
         pn = (BIFS[name][1] if name in BIFS else REF_NAMES[name]).get(len(args))
         orders = []
@@ -495,9 +548,16 @@ def run(ctx):
         reqs.append({'e': '[%s, null]' % ', '.join(e)})
         if name in BIFS:
             terms.append('[%s]' % '; '.join([coq_pos(name, args)] + [coq_nam(name, pn, args, o) for o in orders]))
+        else:
+            t2 = coq_ref_term(name, args)
+            if t2 is not None:
+                idx2.append(len(meta))
+                terms2.append(t2)
         meta.append((name, args, pn, orders))
     impl = ctx.run_impl('feel', reqs, shards=16)
     model = ctx.run_model(HEADER, terms, shard_size=max(200, len(terms) // 16 + 1), tag='calls%d' % os.getpid())
+    model2 = dict(zip(idx2, ctx.run_model(HEADER2, terms2, shard_size=max(50, len(terms2) // 16 + 1), tag='ref%d' % os.getpid())))
+    model2_calls = {}
     mi = iter(model)
     per_bif = {}
     dbg = []
@@ -506,7 +566,7 @@ def run(ctx):
     def shw(x):
         return 'a panic' if x == 'TRAP' else show(x)
 
-    for (name, args, pn, orders), ri in zip(meta, impl):
+    for ix, ((name, args, pn, orders), ri) in enumerate(zip(meta, impl)):
         ctx.evaluations += 1
         per_bif[name] = per_bif.get(name, 0) + 1
         ptext = positional_text(name, args)
@@ -532,6 +592,17 @@ def run(ctx):
                 sp = ref_call(name, args)
             except KeyError:
                 sp = Ellipsis      # no reference for this argument tuple: only named = positional is checked
+            if ix in model2:
+                # the Coq model (coq/C08/Model2.v) is the specification; the Python reference must agree with it where it exists
+                sm = model2_value(name, model2[ix])
+                model2_calls[name] = model2_calls.get(name, 0) + 1
+                if sp is not Ellipsis and sp != sm:
+                    ctx.broken.append('C08: the Python reference and coq/C08/Model2.v disagree on %s: %s / %s' % (ptext, shw(sp), shw(sm)))
+                sp = sm
+                if name == 'sort' and ip == sp and isinstance(v, list) and v and strict_impl(v[0]) != strict(norm_term(model2[ix])):
+                    ctx.violation('%s: tied items do not keep their order (the sort is specified stable)' % ptext, case,
+                                  impl=shw(ip), specified=show(norm_term(model2[ix])))
+                    continue
             sns = [sp if in_domain_for_named(name, args) else None] * len(ntexts)
         if ip is not None and ip != 'TRAP':
             ctx.nontrivial.add(ptext)
@@ -575,10 +646,11 @@ def run(ctx):
              'every function with 0..5 arguments; each call positionally and with named parameters (declared order + one random permutation of the names in the quick tier, all permutations in the thorough tier). non-trivial = a call whose result is not null'
              % ctx.pick(3, 4),
         extra_cov={'calls_per_function': per_bif, 'named_invocations': named_calls, 'functions': len(per_bif), 'model_variant': 'orig' if ORIG else 'current',
-                   'validated_only': sorted(REF_NAMES)},
+                   'validated_only': ['number', 'string'], 'second_model_calls': model2_calls},
         assumptions=['sums stay within 34 digits (operands are generated that small)', 'regular expressions: literal alphanumeric patterns only, no flags',
                      'named forms of the variadic aggregates are compared with the positional form for list arguments only (f(true) is the variadic spelling)'],
-        trusted=['references for matches / replace / split (literal patterns), string, number, sort and stddev are written in Python (CPython decimal for stddev), not proved',
+        trusted=['references for string and number are written in Python, not proved; the square root of stddev in the correspondence is Base/DecRound.v dsqrt (C02/Sqrt.v: correctly rounded), in the theorem an argument',
+                 'sort: the ordering functions issued are `x < y` and `x > y` (C09 v_lt / v_gt in the model); Rust leaves slice::sort_by open for relations that are not strict weak orders, the model and the theorems cover strict weak orders',
                  'the Rust regex engine, decNumber arithmetic (division / square root) are sampled, not modelled in depth'])
 
 
@@ -599,5 +671,5 @@ def replay(ctx, path):
 
 MANIFEST = dict(
     technique='Coq proof (one Gallina function per built-in transliterating bifs/core.rs with the positional and named dispatch; characterisation theorems for all list / string lengths and positions; named = positional) with model/code correspondence on boundary-exhaustive argument tuples',
-    text='Theorems (coq/Props/C08.v, closed under the global context) characterise the modelled built-ins for lists and strings of any length and every position / length argument (substring, sublist, insert before, remove: window semantics from 1, negative positions from the end, null exactly outside the domain; index of, list contains, union, distinct values, flatten, reverse, append, concatenate, count, min, max, sum, mean, median, mode, all, any, not, string predicates, substring before / after, get value, get entries) and show that the named dispatch gives the positional result. Tied to feel-evaluator/src/bifs by issuing every generated call positionally and with named parameters through parse + evaluate and comparing with the model; matches / replace / split (literal patterns), string, number, sort and stddev are validated against references, not proved.',
-    note='Trusted: Coq kernel + vm_compute, hand-written model of bifs/core.rs, positional.rs, named.rs (correspondence-checked), Python references for the validated-only functions, harness. Regex dialect, decNumber division / sqrt and number-to-text conversion (C07) are outside the theorems.')
+    text='Theorems (coq/Props/C08.v, closed under the global context) characterise the modelled built-ins for lists and strings of any length and every position / length argument (substring, sublist, insert before, remove: window semantics from 1, negative positions from the end, null exactly outside the domain; index of, list contains, union, distinct values, flatten, reverse, append, concatenate, count, min, max, sum, mean, median, mode, all, any, not, string predicates, substring before / after, get value, get entries) and show that the named dispatch gives the positional result. mode is exact (C08_mode, C08_mode_is_determined: strictly ascending, each member the first item of its value with maximal multiplicity, every most frequent value present; the conditions determine the list); median is the middle order statistic(s) (C08_median_order_statistic, determined up to numeric equality); the number sort of median / mode is the stable ascending sort (C08_number_sort_stable); sort(list, precedes) is a permutation for every relation and, when precedes is a strict weak order on the items (boolean hypothesis swo_on; every strict total order is one), sorted, stable, and the only such list (C08_sort_by_precedes, C08_sort_is_determined); stddev is the square root (an argument of the model) of the sum of the rounded squared deviations from the mean over n - 1 (C08_stddev); split / replace / matches on literal patterns: join(split(s, d), d) = s, no piece contains d, replace = split then join with the replacement, a pattern that does not occur changes nothing, the recursive equations (C08_split_join ... C08_replace_equation). Tied to feel-evaluator/src/bifs by issuing every generated call positionally and with named parameters through parse + evaluate and comparing with the model (sort: including the order of tied items 1 / 1.0); string and number are validated against references, not proved.',
+    note='Trusted: Coq kernel + vm_compute, hand-written model of bifs/core.rs, positional.rs, named.rs (correspondence-checked), Python references for string / number, harness. Regex dialect beyond literal patterns, decNumber division / power / sqrt rounding and number-to-text conversion (C07) are outside the theorems.')
